@@ -457,7 +457,7 @@ func largeCase(r *rng, real hashring.Hash, enc *json.Encoder) {
 		return fmt.Sprintf("n%d", next)
 	}
 	// initial load, lookups possibly in the middle of it
-	m0 := 11 + r.intn(30)
+	m0 := 11 + r.intn(22)
 	for i := 0; i < m0; i++ {
 		ins(newName())
 		if r.intn(12) == 0 {
@@ -466,7 +466,7 @@ func largeCase(r *rng, real hashring.Hash, enc *json.Encoder) {
 		}
 	}
 	fresh()
-	nb := 6 + r.intn(6)
+	nb := 5 + r.intn(5)
 	for b := 0; b < nb; b++ {
 		nr, ni := r.intn(4), r.intn(4)
 		if len(cur) <= 12 {
@@ -475,7 +475,7 @@ func largeCase(r *rng, real hashring.Hash, enc *json.Encoder) {
 				ni = 1
 			}
 		}
-		if len(cur) >= 40 {
+		if len(cur) >= 34 {
 			ni = r.intn(2)
 		}
 		if nr == 0 && ni == 0 {
